@@ -518,7 +518,7 @@ def st_plan_args(draw, small=False):
             "lambd": draw(st.sampled_from([1.5, 1.6, 1.8, 2.0, 3.0])),   # denser ladders make the overlap Cholesky fail (LinAlgError)
             "nalpha": draw(st.integers(1, 6) if small else st.integers(2, 24)),
             "coef_order": draw(st.sampled_from(["gq", "qg"])), "alpha_formula": draw(st.sampled_from(["etb", "zexp"])),
-            "spline_size": draw(st.sampled_from([None, None, "2x", "plus3"]))}
+            "spline_size": draw(st.sampled_from([None, None, "2x", "plus3", "half"]))}
 
 
 def build_plan(nldf, pa, **over):
@@ -528,7 +528,7 @@ def build_plan(nldf, pa, **over):
     kw.update(over)
     a = [nldf, pa["nspin"], pa["alpha0"], pa["lambd"], pa["nalpha"]]
     if pa["plan"] == "spline":
-        ss = {None: None, "2x": 2 * pa["nalpha"], "plus3": pa["nalpha"] + 3}[pa["spline_size"]]
+        ss = {None: None, "2x": 2 * pa["nalpha"], "plus3": pa["nalpha"] + 3, "half": max(2, pa["nalpha"] // 2)}[pa["spline_size"]]
         if "spline_size" not in kw:
             kw["spline_size"] = ss
         return plans.NLDFSplinePlan(*a, **kw)
@@ -789,16 +789,28 @@ def _asan_body(case, ctx, skip_vk1_subset=False):
         di, dd = plan.get_a2q_fast(e)
         top = plan._spline_size - 1
         ctx.check(np.all(di >= 0) and np.all(di < top), ("a2q", "index_outside_table"), di=di, size=plan._spline_size)
+        # exponents inside the ladder are not clipped: the dense spline index, mapped back through the plan's own
+        # index -> exponent function (the one the table rows were built with, _run_setup), returns the exponent
+        t = np.array([0.03, 0.2, 0.45, 0.7, 0.9, 0.97])
+        # (linear placement: the first exponent of a 'zexp' ladder is ~0, a geometric placement would sit on its floor)
+        ein = np.ascontiguousarray(plan.alphas[0] + (plan.alphas[-1] - plan.alphas[0]) * t)
+        di, dd = plan.get_a2q_fast(ein.copy())
+        # (get_q2a replaces element 0 by the exponent floor for 'zexp' ladders -- it is written for q = 0, 1, 2, ...:
+        # hand it a leading q = 0)
+        back = plan.get_q2a(np.concatenate([[0.0], di * (plan.nalpha - 1) / (plan._spline_size - 1)]))[1:]
+        ctx.close(back, ein, ("a2q", "inside_ladder_roundtrip", "size_eq" if plan._spline_size == plan.nalpha else
+                              ("size_gt" if plan._spline_size > plan.nalpha else "size_lt")), rtol=1e-9,
+                  spline_size=plan._spline_size, nalpha=plan.nalpha)
 
 
 @subcheck("C18", "plans_plain", st_asan_case, quick=800, thorough=10000,
           rule="the C-touching plan routines on the ordinary build: NLDFGaussianPlan / NLDFSplinePlan (nalpha 1-24, both coefficient "
-               "orders, etb/zexp, spline_size = nalpha / 2*nalpha / nalpha+3, optional proc_inds subset) x NLDF settings x "
+               "orders, etb/zexp, spline_size = nalpha / 2*nalpha / nalpha+3 / nalpha//2, optional proc_inds subset) x NLDF settings x "
                "1-16 grid points incl. a density below rhocut and an exponent beyond the ladder (guard off, so it is "
                "clipped); cider_coefs_gto_*/cider_coefs_vk1_*/cider_coefs_spline_*/cider_ind_etb/zexp/clip through "
                "get_interpolation_arguments / _get_interpolation_coefficients (local and global) / eval_rho_full / "
                "get_a2q_fast; oracle: buffers pre-filled with NaN are completely overwritten and have the advertised shape, "
-               "spline indices stay inside the table, feature rows == nfeat; non-trivial = nalpha <= 2 or proc_inds subset "
+               "spline indices stay inside the table and, for exponents inside the ladder, map back to the exponent through get_q2a (1e-9), feature rows == nfeat; non-trivial = nalpha <= 2 or proc_inds subset "
                "or spline_size != nalpha",
           tolerances={})
 def plans_plain(case, ctx):
